@@ -35,6 +35,12 @@ theorem release_cf (R : RespTab) (r : Nat) (h : CountFaultFree R.fault) : CountF
       · simp [CountFaultFree]
       · split <;> exact h
 
+theorem releaseOpt_cf (R : RespTab) (o : Option Nat) (h : CountFaultFree R.fault) :
+    CountFaultFree (releaseOpt R o).1.fault := by
+  cases o with
+  | none => exact h
+  | some r => exact release_cf R r h
+
 theorem acquire_cf (R R' : RespTab) (r : Nat) (h : CountFaultFree R.fault) (ha : acquire R r = some R') :
     CountFaultFree R'.fault := by
   unfold acquire at ha
@@ -232,10 +238,7 @@ theorem cleanupOne_inv (s : St) (c : Conn) (pc pi : List Conn) (h : InvG s (c ::
   refine hB.congr rfl ?_ rfl rfl rfl rfl rfl ?_
   · simp [f2]
   · simp only
-    apply cf_merge hB.cf
-    split
-    · exact release_cf _ _ cf_none
-    · exact cf_none
+    exact cf_merge hB.cf (releaseOpt_cf _ _ cf_none)
 
 theorem cleanupList_inv (l : List Conn) : ∀ (s : St) (pc pi : List Conn), InvG s (l ++ pc) pi →
     InvG (cleanupList s l).1 pc pi := by
